@@ -139,6 +139,7 @@ func biasAlphabet(level int) []M {
 		}
 	}
 	out = append(out, bias("criteriaOmission", M{"ratio": 0.67, "max": 1}), bias("preferenceReversal", M{"ratio": 1.0, "max": 1, "min": 1}))
+	out = append(out, bias("criteriaOmission", M{"ratio": 0.67})) // leaves a single criterion of three
 	for fi, f := range []M{{"function": "const", "params": M{"value": 0.25}, "randomSeed": 2}, {"function": "expFromZero", "params": M{"alpha": 0.5, "multiplier": 1.0, "queryNumber": 1}, "randomSeed": 3}} {
 		for b := 0; b < 3; b++ {
 			if level == 1 && (fi+b)%2 == 1 {
@@ -399,4 +400,15 @@ func nearScale(a, b, scale float64) bool {
 		d = -d
 	}
 	return d <= 1e-12*scale+1e-300
+}
+
+// typelessVariant: every gain criterion is declared without "type" (the documented default is gain).
+func typelessVariant(root M) M {
+	r := asM(deepCopy(root))
+	for _, c := range asL(r["criteria"]) {
+		if asS(asM(c)["type"]) == "gain" {
+			delete(asM(c), "type")
+		}
+	}
+	return M(r)
 }
